@@ -1082,6 +1082,7 @@ func vcReadOps(path string) []string {
 func TestVerifConn(t *testing.T) {
 	out := verifOpen(t)
 	defer out.close()
+	out.noWatch.Store(true) // this harness has its own watchdog (it knows which callers were cancelled)
 	defer vcWatchdog(out)()
 	if p := os.Getenv("VERIF_REPLAY"); p != "" {
 		synctest.Test(t, func(t *testing.T) { vcRunCase(t, out, "replay", verifRng(0), vcReadOps(p)) })
